@@ -391,7 +391,8 @@ fn gen_plan(rng: &mut Rng, data: &[u8]) -> Plan {
 
 fn gen_case(rng: &mut Rng, tier: Tier) -> IoCase {
     let max_n = if tier == Tier::Quick { 14 } else { 40 };
-    let base: MapText = if rng.chance(0.15) {
+    let max_n = if cfg!(miri) { 5 } else { max_n };
+    let base: MapText = if !cfg!(miri) && rng.chance(0.15) {
         let idx = rng.usize(4);
         real_window(rng, idx, max_n)
     } else {
@@ -409,7 +410,7 @@ fn gen_case(rng: &mut Rng, tier: Tier) -> IoCase {
     for _ in 0..n_faults {
         storage_faults.push(storage_fault(rng, &mut content).to_owned());
     }
-    let enumerate = content.len() <= 600 && rng.chance(0.12);
+    let enumerate = !cfg!(miri) && content.len() <= 600 && rng.chance(0.12);
     let plan = if enumerate {
         Plan::default()
     } else {
@@ -420,7 +421,7 @@ fn gen_case(rng: &mut Rng, tier: Tier) -> IoCase {
         storage_faults,
         plan,
         enumerate,
-        check_path: rng.chance(0.08),
+        check_path: !cfg!(miri) && rng.chance(0.08),
     }
 }
 
@@ -958,3 +959,153 @@ impl Engine for C06Engine {
 
 #[allow(dead_code)]
 fn _unused(_: &dyn Read) {}
+
+// ------------------------------------------------------------ C11: decoder scratch buffer
+
+/// Slider-heavy texts: multi-segment paths, repeated anchors, very long paths (the
+/// scratch vector of borrowed `*const str` has to grow), and malformed tokens that make
+/// the path parser bail out mid-line, each followed by further sliders so that a
+/// scratch buffer that survived its line would be used again.
+fn gen_slider_content(rng: &mut Rng) -> (Vec<u8>, Vec<String>) {
+    let mut s = String::from("osu file format v14\n[General]\nMode: 0\n[Difficulty]\nSliderMultiplier:1.4\n[TimingPoints]\n0,500,4,2,0,100,1,0\n[HitObjects]\n");
+    let n = if cfg!(miri) { 2 + rng.usize(4) } else { 2 + rng.usize(10) };
+    let mut faults = Vec::new();
+    let mut t = 1000;
+    for _ in 0..n {
+        t += 100 + rng.usize(800);
+        let x = rng.range(0, 512);
+        let y = rng.range(0, 384);
+        if rng.chance(0.15) {
+            s.push_str(&format!("{x},{y},{t},1,0,0:0:0:0:\n"));
+            continue;
+        }
+        let segs = 1 + rng.usize(3);
+        let mut path = String::new();
+        for k in 0..segs {
+            let ty = *rng.pick(&["B", "L", "P", "C", "B"]);
+            if k > 0 {
+                path.push('|');
+            }
+            path.push_str(ty);
+            let pts = if rng.chance(0.08) { 40 + rng.usize(if cfg!(miri) { 40 } else { 400 }) } else { 1 + rng.usize(4) };
+            let (mut px, mut py) = (x, y);
+            for _ in 0..pts {
+                if rng.chance(0.2) {
+                    path.push_str(&format!("|{px}:{py}")); // repeated anchor
+                } else {
+                    px += rng.range(-80, 80);
+                    py += rng.range(-80, 80);
+                    path.push_str(&format!("|{px}:{py}"));
+                }
+            }
+        }
+        // malformed tokens
+        if rng.chance(0.45) {
+            let parts: Vec<&str> = path.split('|').collect();
+            let i = rng.usize(parts.len());
+            let bad = *rng.pick(&["", "abc:1", "1:", ":", "nan:nan", "1e9:5", "7", "B", "-", "1:2:3", "x", "9999999:1"]);
+            let mut p2: Vec<String> = parts.iter().map(|p| (*p).to_owned()).collect();
+            match rng.below(3) {
+                0 => p2[i] = bad.to_owned(),
+                1 => p2.insert(i, bad.to_owned()),
+                _ => {
+                    p2.truncate(i.max(1));
+                    p2.push(bad.to_owned());
+                }
+            }
+            path = p2.join("|");
+            faults.push(format!("bad_path_token:{bad}"));
+        }
+        let reps = 1 + rng.usize(3);
+        let len = rng.range(10, 400);
+        if rng.chance(0.1) {
+            s.push_str(&format!("{x},{y},{t},2,0,{path},{},{len}\n", *rng.pick(&["9001", "abc", "-1", ""])));
+            faults.push("bad_repeat_count".into());
+        } else {
+            s.push_str(&format!("{x},{y},{t},2,0,{path},{reps},{len}\n"));
+        }
+    }
+    (s.into_bytes(), faults)
+}
+
+pub struct C11DecodeEngine;
+
+impl Engine for C11DecodeEngine {
+    type Case = IoCase;
+    fn name() -> &'static str {
+        "c11d"
+    }
+    fn gen(rng: &mut Rng, _tier: Tier) -> IoCase {
+        let (content, storage_faults) = gen_slider_content(rng);
+        // byte-wise reads rewrite the line buffer as often as possible between uses
+        let plan = match rng.below(4) {
+            0 => Plan::default(),
+            1 => Plan { chunks: vec![3, 1], ..Plan::default() },
+            2 => Plan { chunks: vec![5, 2, 7, 1], ..Plan::default() },
+            _ => gen_plan(rng, &content),
+        };
+        let mut plan = plan;
+        // the BOM-sniffing loss of a 1-2 byte first window is C06's known finding, not C11's subject
+        if !plan.chunks.is_empty() && plan.chunks[0] < 3 {
+            plan.chunks.insert(0, 3);
+        }
+        IoCase {
+            content,
+            storage_faults,
+            plan,
+            enumerate: false,
+            check_path: false,
+        }
+    }
+    fn exec(case: &IoCase, stats: &mut Stats) -> Option<Violation> {
+        let prev = crate::seams::set_alloc_junk_get(0xA5);
+        let r = exec(case, stats);
+        crate::seams::set_alloc_junk(prev);
+        // additionally: every line must decode to the same objects in a fresh decoder (no state
+        // carried over through the scratch buffer): compare object counts line by line
+        if r.is_none() {
+            if let Some(v) = line_independence(&case.content) {
+                return Some(v);
+            }
+        }
+        r.map(|v| Violation::new(v.key.replace("C06/", "C11/decode/"), v.detail))
+    }
+    fn simpler(case: &IoCase) -> Vec<IoCase> {
+        simpler(case)
+    }
+    fn to_json(c: &IoCase) -> Value {
+        C06Engine::to_json(c)
+    }
+    fn from_json(v: &Value) -> IoCase {
+        C06Engine::from_json(v)
+    }
+    fn signature(c: &IoCase) -> u64 {
+        C06Engine::signature(c)
+    }
+    fn nontrivial(c: &IoCase) -> bool {
+        !c.storage_faults.is_empty() || c.plan != Plan::default()
+    }
+}
+
+/// The number of objects the whole text decodes to equals the number of its hit-object
+/// lines that decode on their own: a scratch buffer that outlives its line shows up as
+/// lines that parse alone but vanish (or turn into garbage) in context.
+fn line_independence(content: &[u8]) -> Option<Violation> {
+    let whole = Beatmap::from_bytes(content).ok()?;
+    let text = String::from_utf8_lossy(content);
+    let (head, objs) = text.split_once("[HitObjects]\n")?;
+    let mut alone = 0usize;
+    for l in objs.lines() {
+        let one = format!("{head}[HitObjects]\n{l}\n");
+        if let Ok(m) = Beatmap::from_bytes(one.as_bytes()) {
+            alone += m.hit_objects.len();
+        }
+    }
+    if alone != whole.hit_objects.len() {
+        return Some(Violation::new(
+            "C11/decode/lines-not-independent",
+            format!("{} objects decoded from the whole text, {alone} from its lines one by one", whole.hit_objects.len()),
+        ));
+    }
+    None
+}
